@@ -48,6 +48,8 @@ pub struct OpRec {
     /// on_exit ran on the calling thread inside the call: the update path was taken
     pub update_path: bool,
     pub exited_id: u64,
+    /// virtual clock when the call began (insert variants): the entry's deadline is at least vcall + ttl
+    pub vcall: u64,
 }
 
 impl OpRec {
@@ -180,6 +182,7 @@ fn client(d: Arc<dyn Drv>, h: HCfg, tid: u8, ids: Arc<AtomicU64>, clears: Arc<(A
                 rec.aux = if h.mode == "hammer" { rng.range(0, 1000) as i64 } else { rng.range(0, 4) as i64 };
                 let v = Tracked::with_aux(id, key, rec.aux);
                 let before = val::tl_exits();
+                rec.vcall = stretto::verif::clock::now_ns();
                 rec.call = seq::next();
                 let res = if op == OP_INSERT { d.try_insert(key, v, rec.cost, Duration::from_nanos(rec.ttl_ns)) } else { d.try_insert_if_present(key, v, rec.cost) };
                 rec.ret = seq::next();
@@ -599,6 +602,41 @@ pub fn check_history(hist: &Hist, rep: &mut Report) {
     if let Some(e) = &hist.quiesce_err {
         rep.inconclusive(format!("quiescence not reached: {e}"));
         return;
+    }
+
+    // ---------------------------------------------------------------- C05 / C04: never swept early
+    // Below capacity (every key at its dearest still fits, max_cost never lowered) the processor has no
+    // reason to evict for room: outside clear()/close() calls (which hand buffered, never admitted
+    // values to on_evict) a value reaches on_evict only through the TTL cleanup, hence only once its
+    // deadline (at least: virtual time when its insert began + ttl) has passed, and never without a TTL.
+    {
+        let mut dearest: HashMap<u64, i64> = HashMap::new();
+        for o in ops.iter().filter(|o| matches!(o.op, OP_INSERT | OP_IF_PRESENT)) {
+            let eff = if o.cost == 0 { o.aux } else { o.cost };
+            let e = dearest.entry(o.key).or_insert(0);
+            *e = (*e).max(eff);
+        }
+        let below_capacity = hist.h.cfg.ignore_internal && !ops.iter().any(|o| o.op == OP_MAXCOST) && dearest.values().map(|c| *c as i128).sum::<i128>() <= hist.h.cfg.max_cost as i128;
+        if below_capacity && hist.close_err.is_none() {
+            let writers: HashMap<u64, &OpRec> = ops.iter().filter(|o| matches!(o.op, OP_INSERT | OP_IF_PRESENT) && o.id != 0).map(|o| (o.id, o)).collect();
+            let mutated: HashSet<u64> = hist.events.iter().filter_map(|e| if let EvKind::Mutate { new, .. } = e.kind { Some(new) } else { None }).collect();
+            for e in hist.events.iter() {
+                if let EvKind::Cb { kind: CB_EVICT, id, key, .. } = e.kind {
+                    if e.seq >= hist.end_seq || clears.iter().any(|(c, r)| e.seq > *c && e.seq < *r) || mutated.contains(&id) {
+                        continue;
+                    }
+                    let Some(w) = writers.get(&id) else { continue };
+                    rep.count("ho_c05_evictions_below_capacity_checked");
+                    if w.ttl_ns == 0 {
+                        rep.violate("C05", "cleanup/removed-unexpired", format!("value #{id:x} (key {key}) was written by {} without TTL and handed to on_evict at [{}] although the cache never ran short of room (total of the dearest entries {} <= max_cost {})", w.short(), e.seq, dearest.values().sum::<i64>(), hist.h.cfg.max_cost), json!({"history": d, "evicted_at_seq": e.seq, "writer": w.short()}));
+                        rep.violate("C04", "cleanup/removed-unexpired", format!("value #{id:x} (key {key}) without TTL swept below capacity"), json!({"history": d, "evicted_at_seq": e.seq, "writer": w.short()}));
+                    } else if e.vnow < w.vcall.saturating_add(w.ttl_ns) && w.vcall != 0 {
+                        rep.violate("C05", "cleanup/removed-unexpired", format!("value #{id:x} (key {key}) written by {} at virtual time >= {} with ttl {} ns was handed to on_evict at virtual time {} (seq {}), before its deadline, although the cache never ran short of room", w.short(), w.vcall, w.ttl_ns, e.vnow, e.seq), json!({"history": d, "evicted_at_seq": e.seq, "writer": w.short()}));
+                        rep.violate("C04", "cleanup/removed-unexpired", format!("value #{id:x} (key {key}) swept before its deadline below capacity"), json!({"history": d, "evicted_at_seq": e.seq, "writer": w.short()}));
+                    }
+                }
+            }
+        }
     }
 
     // ---------------------------------------------------------------- C06
